@@ -16,6 +16,9 @@ INT_POOL = [0, 1, -1, 2, 3, 7, -7, 10, 2 ** 31, 2 ** 53 + 1, 2 ** 63, 2 ** 64 + 
 DEC_POOL = [0.5, 1.5, 2.0, -2.5, 1000.0, 0.1]
 
 
+NONBOOL = [('null',), ('i', 0), ('i', 1), ('d', 0.0), ('d', 1.5), ('s', ''), ('s', 'a'), ('l', ()), ('l', (('i', 1), ('i', 2)))]
+
+
 class Err(Exception):
     pass
 
@@ -34,6 +37,8 @@ def gen_tree(rng, depth, want="any"):
     """want: 'num' | 'bool' | 'any'"""
     if depth <= 0 or rng.random() < 0.2:
         if want == "bool":
+            if rng.random() < 0.08:
+                return lit(rng.choice(NONBOOL))       # and/or/not accept only booleans
             return lit(('b', rng.random() < 0.5))
         r = rng.random()
         if r < 0.55:
@@ -377,6 +382,14 @@ def run(ctx):
                 progs.append((f"{u}7 {o} 3", None))
                 progs.append((f"{u}TRUE {o} FALSE", None))
                 progs.append((f"7 {o} {u.strip() + ' ' if u == 'not ' else u}3", None))
+        # ---------------- and / or / not over every pair of (boolean or non-boolean, falsy or truthy) operands
+        pool = [('b', True), ('b', False)] + NONBOOL
+        for a in pool:
+            progs.append((pretty(('not', lit(a))), ('not', lit(a))))
+            for b in pool:
+                for k in ('and', 'or'):
+                    progs.append((pretty((k, [lit(a), lit(b)])), (k, [lit(a), lit(b)])))
+                    progs.append((pretty((k, [lit(('b', k == 'and')), lit(a), lit(b)])), (k, [lit(('b', k == 'and')), lit(a), lit(b)])))
         ctx.exhaustive = False
         reqs = []
         for src, t in progs:
